@@ -43,7 +43,7 @@ class Case:
     def __init__(self, name, harness, srcs, defs=(), unwind=None, unwindset=None, flags=(), timeout=300,
                  solver=None, remove_bodies=(), config=(), models=True, mem_gb=12, note="", bounds=None,
                  functions=(), stubs=(), extra_c=(), replay_wrap=(), expect_fail=(), no_std_flags=False,
-                 object_bits=None, nondet_static=False, gen_bodies=()):
+                 object_bits=None, nondet_static=False, gen_bodies=(), link_stubs=()):
         self.name = name
         self.harness = harness
         self.srcs = list(srcs)
@@ -68,6 +68,7 @@ class Case:
         self.object_bits = object_bits
         self.nondet_static = nondet_static
         self.gen_bodies = list(gen_bodies)
+        self.link_stubs = list(link_stubs)
 
 
 def _limit(mem_gb):
@@ -105,36 +106,43 @@ def common_cflags(case):
 
 
 def build_goto(case, wd, kf_defs=()):
+    """goto-cc build.  Functions in case.remove_bodies lose their body (goto-instrument); those also listed in
+    case.link_stubs are re-defined by the harness (compiled with -DSTUB_<fn>=1 and linked afterwards), the ones in
+    case.gen_bodies get a body returning an arbitrary value."""
     os.makedirs(wd, exist_ok=True)
     gb = os.path.join(wd, "case.gb")
-    files = [os.path.join(VERIF, case.harness)] + [os.path.join(SRC, s) for s in case.srcs]
-    files += [os.path.join(VERIF, e) for e in case.extra_c]
+    lib = [os.path.join(SRC, s) for s in case.srcs]
     if case.models:
-        files.append(os.path.join(VERIF, "models", "libc.c"))
-    cmd = ["goto-cc", "-o", gb] + common_cflags(case) + list(kf_defs) + files
-    r = sh(cmd, timeout=300)
-    if r["rc"] != 0:
-        return None, "goto-cc failed: " + r["err"][-3000:]
-    if case.remove_bodies:
-        gb2 = os.path.join(wd, "case2.gb")
-        cmd = ["goto-instrument"]
-        for f in case.remove_bodies:
-            cmd += ["--remove-function-body", f]
-        cmd += [gb, gb2]
-        r = sh(cmd, timeout=300)
+        lib.append(os.path.join(VERIF, "models", "libc.c"))
+    front = [os.path.join(VERIF, case.harness)] + [os.path.join(VERIF, e) for e in case.extra_c]
+    cflags = common_cflags(case) + list(kf_defs) + ["-DSTUB_%s=1" % f for f in case.link_stubs]
+    if not case.remove_bodies:
+        r = sh(["goto-cc", "-o", gb] + cflags + front + lib, timeout=300)
         if r["rc"] != 0:
-            return None, "goto-instrument failed: " + r["err"][-2000:] + r["out"][-2000:]
-        gb = gb2
-        if case.gen_bodies:
-            # functions whose body was removed and that the harness does not re-define get a havoc-free body that
-            # returns an arbitrary value (CBMC 6 otherwise reports "no body for callee")
-            gb3 = os.path.join(wd, "case3.gb")
-            rx = "^(" + "|".join(case.gen_bodies) + ")$"
-            r = sh(["goto-instrument", "--generate-function-body", rx, "--generate-function-body-options",
-                    "nondet-return", gb, gb3], timeout=300)
-            if r["rc"] != 0:
-                return None, "goto-instrument generate-function-body failed: " + r["err"][-2000:] + r["out"][-2000:]
-            gb = gb3
+            return None, "goto-cc failed: " + r["err"][-3000:]
+        return gb, None
+    libgb = os.path.join(wd, "lib.gb")
+    r = sh(["goto-cc", "-o", libgb] + cflags + lib, timeout=300)
+    if r["rc"] != 0:
+        return None, "goto-cc (lib) failed: " + r["err"][-3000:]
+    lib2 = os.path.join(wd, "lib2.gb")
+    cmd = ["goto-instrument"]
+    for f in case.remove_bodies:
+        cmd += ["--remove-function-body", f]
+    r = sh(cmd + [libgb, lib2], timeout=300)
+    if r["rc"] != 0:
+        return None, "goto-instrument failed: " + r["err"][-2000:] + r["out"][-2000:]
+    r = sh(["goto-cc", "-o", gb] + cflags + [lib2] + front, timeout=300)
+    if r["rc"] != 0:
+        return None, "goto-cc (link) failed: " + r["err"][-3000:]
+    if case.gen_bodies:
+        gb3 = os.path.join(wd, "case3.gb")
+        rx = "^(" + "|".join(case.gen_bodies) + ")$"
+        r = sh(["goto-instrument", "--generate-function-body", rx, "--generate-function-body-options",
+                "nondet-return", gb, gb3], timeout=300)
+        if r["rc"] != 0:
+            return None, "goto-instrument generate-function-body failed: " + r["err"][-2000:] + r["out"][-2000:]
+        gb = gb3
     return gb, None
 
 
@@ -248,10 +256,10 @@ def build_replay(case, wd, kf_defs=()):
         wraps += ["strtol", "strtoll", "strtoul", "strtoull", "strtod", "strtof", "strndup", "snprintf"]
     for w in wraps:
         ld.append("-Wl,--wrap=" + w)
-    if case.remove_bodies:
-        # natively: the harness supplies the replacement under the same name; drop the real one by renaming
-        for f in case.remove_bodies:
-            cflags.append("-DVERIF_REMOVED_%s=1" % f)
+    if case.link_stubs:
+        # natively the harness' definition (first on the command line) wins over the library's
+        cflags += ["-DSTUB_%s=1" % f for f in case.link_stubs]
+        ld.append("-Wl,--allow-multiple-definition")
     r = sh(["gcc"] + cflags + files + ["-o", exe] + ld, timeout=300)
     if r["rc"] != 0:
         return None, r["err"][-3000:]
